@@ -1,7 +1,108 @@
+import ElvisVerif.Model.Demux
 import Driver.Common
-/-! Line-protocol handlers for C04 (sub-commands `c04` / `c04-*`). -/
+/-! Line-protocol handler for C04 (sub-command `c04`): replays the configuration and the observed
+arrivals of a full-stack scenario through `Elvis.Demux` and prints what the model says must be
+delivered where. -/
 namespace Driver.C04
+open Elvis.Demux
 
-def dispatch (_sub : String) (_i _o : IO.FS.Stream) : Option (IO Unit) := none
+structure St where
+  world : World := []
+  delivered : List String := []
+
+def fmtAddr (a : Nat) : String :=
+  s!"{a / 16777216 % 256}.{a / 65536 % 256}.{a / 256 % 256}.{a % 256}"
+
+def fmtEp (e : Endpoint) : String := s!"{fmtAddr e.addr}:{e.port}"
+
+def hex8 (n : Nat) : String :=
+  String.ofList ((List.range 8).reverse.map fun i => Driver.hexDigit (n / 16 ^ i % 16))
+
+def fnv (b : List UInt8) : Nat :=
+  (b.foldl (fun (h : UInt32) x => (h ^^^ x.toUInt32) * 0x01000193) 0x811c9dc5).toNat
+
+/-- value of `key=value` among the words -/
+def kv (ws : List String) (key : String) : Option String :=
+  ws.findSome? fun w => if w.startsWith (key ++ "=") then some ((w.drop (key.length + 1)).toString) else none
+
+def nats (s : String) : Option (List Nat) := (s.splitOn ",").mapM String.toNat?
+
+def parseIp (s : String) : Option (Option IpHdr) :=
+  if s == "bad" then some none else
+  match nats s with
+  | some [ihl, proto, src, dst, last, off] => some (some ⟨ihl, proto, src, dst, last == 1, off⟩)
+  | _ => none
+
+def parseUdp (s : String) : Option (Option UdpHdr) :=
+  if s == "bad" || s == "-" then some none else
+  match nats s with
+  | some [sp, dp] => some (some ⟨sp, dp⟩)
+  | _ => none
+
+def parseFrame (ws : List String) : Option Frame := do
+  let slot ← (← kv ws "slot").toNat?
+  let tgt ← (← kv ws "tgt").toNat?
+  let ip ← parseIp (← kv ws "ip")
+  let udp ← parseUdp (← kv ws "udp")
+  let bytes ← Driver.parseHex (← kv ws "bytes")
+  pure { target := tgt, slot, ip, udp, bytes }
+
+def dropClass : Drop → String
+  | .noProtocol => "no-protocol"
+  | .otherTarget => "other"
+  | .ipHeader => "header"
+  | .ipMissingSession => "missing-session"
+  | .otherUpstream => "other"
+  | .fragment => "ok"
+  | .udpHeader => "header"
+  | .udpMissingSession => "missing-session"
+  | .panicNoUpstream => "panic"
+
+def listenClass : Except ListenErr Unit → String
+  | .ok _ => "ok"
+  | .error .existing => "err:existing"
+  | .error .ipv4Exists => "err:ipv4-exists"
+  | .error .panicNoIpv4 => "panic"
+
+def arrival (st : St) (mi : Nat) (f : Frame) (inject : Bool) : St × String :=
+  match (step st.world (.arrive mi f)).2 with
+  | .arrived (.ok d) =>
+    let line := s!"deliver app={d.app} payload={Driver.toHex d.payload} local={fmtEp d.loc} remote={fmtEp d.rem} slot={d.slot}"
+    let rec_ := s!"m{mi}/a{d.app}/{fmtEp d.loc}/{fmtEp d.rem}/{d.payload.length}/{hex8 (fnv d.payload)}"
+    ({ st with delivered := rec_ :: st.delivered }, line)
+  | .arrived (.error e) => (st, if inject then s!"none:{dropClass e}" else "none")
+  | _ => (st, "no-machine")
+
+def step (st : St) (ws : List String) : St × String :=
+  match ws with
+  | ["case", id] => ({}, s!"case {id}")
+  | "cfg" :: "machine" :: _ :: rest =>
+    match (kv rest "pids").bind nats with
+    | some pids => ({ st with world := st.world ++ [Machine.init pids] }, "cfg")
+    | none => (st, "bad-op")
+  | "cfg" :: _ => (st, "cfg")
+  | ["listen", m, up, addr, port] =>
+    match m.toNat?, up.toNat?, addr.toNat?, port.toNat? with
+    | some m, some up, some addr, some port =>
+      match Elvis.Demux.step st.world (.listen m up ⟨addr, port⟩) with
+      | (w, .listened r) => ({ st with world := w }, listenClass r)
+      | _ => (st, "no-machine")
+    | _, _, _, _ => (st, "bad-op")
+  | "arrive" :: m :: rest =>
+    match m.toNat?, parseFrame rest with
+    | some m, some f => arrival st m f false
+    | _, _ => (st, "bad-op")
+  | "inject" :: m :: rest =>
+    match m.toNat?, parseFrame rest with
+    | some m, some f => arrival st m f true
+    | _, _ => (st, "bad-op")
+  | ["end"] =>
+    let l := st.delivered.mergeSort (fun a b => !(b < a))
+    (st, s!"end n={l.length} " ++ " ".intercalate l)
+  | ["crash"] => (st, "no-crash")
+  | _ => (st, "bad-op")
+
+def dispatch (sub : String) (i o : IO.FS.Stream) : Option (IO Unit) :=
+  if sub == "c04" then some (Driver.loop i o step {}) else none
 
 end Driver.C04
